@@ -261,16 +261,49 @@ theorem has_next {m : SMap Bytes} (hm : KAsc m) (op : Op) (x : Bytes) (h : has (
   | stat _ => exact Or.inl h
   | enum _ _ => exact Or.inl h
 
+/-! ### `Refines` as the trivial-predicate case of `RefinesK`
+
+The step lemmas below are proved once, over `RefinesK` (sub-stores that refine the map for received
+keys satisfying `K`); the `Refines` statements are their instances at `K = fun _ => True`. -/
+
+/-- `Refines` seen as `RefinesK` for the trivial predicate, with the SAME `abs` and `Inv` -/
+def toTrueK {content : Bytes → Bytes} {I : Impl} (R : Refines content I) :
+    RefinesK content (fun _ => True) I where
+  abs := R.abs
+  Inv := R.Inv
+  init_inv := R.init_inv
+  init_abs := R.init_abs
+  good := R.good
+  keys := fun _ _ _ _ _ => trivial
+  step_ok := fun s op h hop _ => R.step_ok s op h hop
+
+theorem kok_true (op : Op) : op.KOK (fun _ => True) := by cases op <;> trivial
+
+theorem kok_of_not_recv {K : Bytes → Prop} (op : Op) (h : opIsRecv op = false) : op.KOK K := by
+  cases op with
+  | recv _ _ => cases h
+  | _ => trivial
+
+/-- every key of a union satisfies `K` when the keys of both sides do -/
+theorem keys_union {K : Bytes → Prop} {A B : SMap Bytes}
+    (hA : ∀ k v, SMap.get A k = some v → K k) (hB : ∀ k v, SMap.get B k = some v → K k) :
+    ∀ k v, SMap.get (union A B) k = some v → K k := by
+  intro k v h
+  rw [get_union] at h
+  cases hg : SMap.get A k with
+  | none => rw [hg] at h; exact hB k v h
+  | some w => exact hA k w hg
+
 /-! ### the merged enumeration of two refining sub-stores -/
 
-theorem enum2_ok {content : Bytes → Bytes} {a b : Impl} (Ra : Refines content a)
-    (Rb : Refines content b) (sa : a.σ) (sb : b.σ) (ha : Ra.Inv sa) (hb : Rb.Inv sb)
+theorem enum2_okK {content : Bytes → Bytes} {K : Bytes → Prop} {a b : Impl} (Ra : RefinesK content K a)
+    (Rb : RefinesK content K b) (sa : a.σ) (sb : b.σ) (ha : Ra.Inv sa) (hb : Rb.Inv sb)
     (after : Bytes) (limit : Nat) :
     (enum2 a b sa sb after limit).2.2 = .refs (enumOf (union (Ra.abs sa) (Rb.abs sb)) after limit) ∧
     Ra.abs (enum2 a b sa sb after limit).1 = Ra.abs sa ∧ Ra.Inv (enum2 a b sa sb after limit).1 ∧
     Rb.abs (enum2 a b sa sb after limit).2.1 = Rb.abs sb ∧ Rb.Inv (enum2 a b sa sb after limit).2.1 := by
-  obtain ⟨hoa, haa, hia⟩ := Ra.step_ok sa (.enum after limit) ha trivial
-  obtain ⟨hob, hab, hib⟩ := Rb.step_ok sb (.enum after limit) hb trivial
+  obtain ⟨hoa, haa, hia⟩ := Ra.step_ok sa (.enum after limit) ha trivial trivial
+  obtain ⟨hob, hab, hib⟩ := Rb.step_ok sb (.enum after limit) hb trivial trivial
   unfold enum2
   generalize a.step sa (.enum after limit) = pa at hoa haa hia
   generalize b.step sb (.enum after limit) = pb at hob hab hib
@@ -281,7 +314,22 @@ theorem enum2_ok {content : Bytes → Bytes} {a b : Impl} (Ra : Refines content 
   simp only
   exact ⟨by rw [enum2_spec (Ra.good sa ha) (Rb.good sb hb)], haa, hia, hab, hib⟩
 
+theorem enum2_ok {content : Bytes → Bytes} {a b : Impl} (Ra : Refines content a)
+    (Rb : Refines content b) (sa : a.σ) (sb : b.σ) (ha : Ra.Inv sa) (hb : Rb.Inv sb)
+    (after : Bytes) (limit : Nat) :
+    (enum2 a b sa sb after limit).2.2 = .refs (enumOf (union (Ra.abs sa) (Rb.abs sb)) after limit) ∧
+    Ra.abs (enum2 a b sa sb after limit).1 = Ra.abs sa ∧ Ra.Inv (enum2 a b sa sb after limit).1 ∧
+    Rb.abs (enum2 a b sa sb after limit).2.1 = Rb.abs sb ∧ Rb.Inv (enum2 a b sa sb after limit).2.1 :=
+  enum2_okK (toTrueK Ra) (toTrueK Rb) sa sb ha hb after limit
+
 /-! ### two stores holding disjoint parts of the key space -/
+
+/-- both sub-invariants hold, `a` holds only keys on side `false`, `b` only keys on side `true` -/
+def PartInvK {content : Bytes → Bytes} {K : Bytes → Prop} {a b : Impl} (Ra : RefinesK content K a)
+    (Rb : RefinesK content K b) (side : Bytes → Bool) (s : a.σ × b.σ) : Prop :=
+  Ra.Inv s.1 ∧ Rb.Inv s.2 ∧
+  (∀ k, has (Ra.abs s.1) k = true → side k = false) ∧
+  (∀ k, has (Rb.abs s.2) k = true → side k = true)
 
 /-- both sub-invariants hold, `a` holds only keys on side `false`, `b` only keys on side `true` -/
 def PartInv {content : Bytes → Bytes} {a b : Impl} (Ra : Refines content a) (Rb : Refines content b)
@@ -297,15 +345,15 @@ theorem has_false_of_side {m : SMap Bytes} {side : Bytes → Bool} {c : Bool}
   | true => have := h k hh; rw [this] at hk; cases c <;> cases hk
 
 /-- a keyed operation sent to `a` only, its key being on `a`'s side -/
-theorem part_left {content : Bytes → Bytes} {a b : Impl} (Ra : Refines content a)
-    (Rb : Refines content b) (side : Bytes → Bool) (sa : a.σ) (sb : b.σ) (op : Op)
-    (hne : opIsEnum op = false) (hI : PartInv Ra Rb side (sa, sb)) (hop : op.WK content)
-    (hs : side (opKey op) = false) :
+theorem part_leftK {content : Bytes → Bytes} {K : Bytes → Prop} {a b : Impl}
+    (Ra : RefinesK content K a) (Rb : RefinesK content K b) (side : Bytes → Bool) (sa : a.σ) (sb : b.σ)
+    (op : Op) (hne : opIsEnum op = false) (hI : PartInvK Ra Rb side (sa, sb)) (hop : op.WK content)
+    (hK : op.KOK K) (hs : side (opKey op) = false) :
     (a.step sa op).2 = out (union (Ra.abs sa) (Rb.abs sb)) op ∧
     union (Ra.abs (a.step sa op).1) (Rb.abs sb) = next (union (Ra.abs sa) (Rb.abs sb)) op ∧
-    PartInv Ra Rb side ((a.step sa op).1, sb) := by
+    PartInvK Ra Rb side ((a.step sa op).1, sb) := by
   obtain ⟨hRa, hRb, hA, hB⟩ := hI
-  obtain ⟨ho, ha, hi⟩ := Ra.step_ok sa op hRa hop
+  obtain ⟨ho, ha, hi⟩ := Ra.step_ok sa op hRa hop hK
   have hk : has (Rb.abs sb) (opKey op) = false := has_false_of_side hB _ (by simp [hs])
   refine ⟨?_, ?_, hi, hRb, ?_, hB⟩
   · rw [ho]; exact out_union_left op hne hk
@@ -317,15 +365,15 @@ theorem part_left {content : Bytes → Bytes} {a b : Impl} (Ra : Refines content
     · rw [h]; exact hs
 
 /-- a keyed operation sent to `b` only, its key being on `b`'s side -/
-theorem part_right {content : Bytes → Bytes} {a b : Impl} (Ra : Refines content a)
-    (Rb : Refines content b) (side : Bytes → Bool) (sa : a.σ) (sb : b.σ) (op : Op)
-    (hne : opIsEnum op = false) (hI : PartInv Ra Rb side (sa, sb)) (hop : op.WK content)
-    (hs : side (opKey op) = true) :
+theorem part_rightK {content : Bytes → Bytes} {K : Bytes → Prop} {a b : Impl}
+    (Ra : RefinesK content K a) (Rb : RefinesK content K b) (side : Bytes → Bool) (sa : a.σ) (sb : b.σ)
+    (op : Op) (hne : opIsEnum op = false) (hI : PartInvK Ra Rb side (sa, sb)) (hop : op.WK content)
+    (hK : op.KOK K) (hs : side (opKey op) = true) :
     (b.step sb op).2 = out (union (Ra.abs sa) (Rb.abs sb)) op ∧
     union (Ra.abs sa) (Rb.abs (b.step sb op).1) = next (union (Ra.abs sa) (Rb.abs sb)) op ∧
-    PartInv Ra Rb side (sa, (b.step sb op).1) := by
+    PartInvK Ra Rb side (sa, (b.step sb op).1) := by
   obtain ⟨hRa, hRb, hA, hB⟩ := hI
-  obtain ⟨ho, ha, hi⟩ := Rb.step_ok sb op hRb hop
+  obtain ⟨ho, ha, hi⟩ := Rb.step_ok sb op hRb hop hK
   have hk : has (Ra.abs sa) (opKey op) = false := has_false_of_side hA _ (by simp [hs])
   refine ⟨?_, ?_, hRa, hi, hA, ?_⟩
   · rw [ho]; exact out_union_right op hne hk
@@ -336,20 +384,86 @@ theorem part_right {content : Bytes → Bytes} {a b : Impl} (Ra : Refines conten
     · exact hB k h
     · rw [h]; exact hs
 
+theorem part_enumK {content : Bytes → Bytes} {K : Bytes → Prop} {a b : Impl}
+    (Ra : RefinesK content K a) (Rb : RefinesK content K b) (side : Bytes → Bool) (sa : a.σ) (sb : b.σ)
+    (after : Bytes) (limit : Nat) (hI : PartInvK Ra Rb side (sa, sb)) :
+    (enum2 a b sa sb after limit).2.2 = out (union (Ra.abs sa) (Rb.abs sb)) (.enum after limit) ∧
+    union (Ra.abs (enum2 a b sa sb after limit).1) (Rb.abs (enum2 a b sa sb after limit).2.1) =
+      union (Ra.abs sa) (Rb.abs sb) ∧
+    PartInvK Ra Rb side ((enum2 a b sa sb after limit).1, (enum2 a b sa sb after limit).2.1) := by
+  obtain ⟨hRa, hRb, hA, hB⟩ := hI
+  obtain ⟨ho, haa, hia, hab, hib⟩ := enum2_okK Ra Rb sa sb hRa hRb after limit
+  refine ⟨ho, by rw [haa, hab], hia, hib, ?_, ?_⟩
+  · intro k hh; rw [haa] at hh; exact hA k hh
+  · intro k hh; rw [hab] at hh; exact hB k hh
+
+/-- a keyed operation sent to `a` only, its key being on `a`'s side -/
+theorem part_left {content : Bytes → Bytes} {a b : Impl} (Ra : Refines content a)
+    (Rb : Refines content b) (side : Bytes → Bool) (sa : a.σ) (sb : b.σ) (op : Op)
+    (hne : opIsEnum op = false) (hI : PartInv Ra Rb side (sa, sb)) (hop : op.WK content)
+    (hs : side (opKey op) = false) :
+    (a.step sa op).2 = out (union (Ra.abs sa) (Rb.abs sb)) op ∧
+    union (Ra.abs (a.step sa op).1) (Rb.abs sb) = next (union (Ra.abs sa) (Rb.abs sb)) op ∧
+    PartInv Ra Rb side ((a.step sa op).1, sb) :=
+  part_leftK (toTrueK Ra) (toTrueK Rb) side sa sb op hne hI hop (kok_true op) hs
+
+/-- a keyed operation sent to `b` only, its key being on `b`'s side -/
+theorem part_right {content : Bytes → Bytes} {a b : Impl} (Ra : Refines content a)
+    (Rb : Refines content b) (side : Bytes → Bool) (sa : a.σ) (sb : b.σ) (op : Op)
+    (hne : opIsEnum op = false) (hI : PartInv Ra Rb side (sa, sb)) (hop : op.WK content)
+    (hs : side (opKey op) = true) :
+    (b.step sb op).2 = out (union (Ra.abs sa) (Rb.abs sb)) op ∧
+    union (Ra.abs sa) (Rb.abs (b.step sb op).1) = next (union (Ra.abs sa) (Rb.abs sb)) op ∧
+    PartInv Ra Rb side (sa, (b.step sb op).1) :=
+  part_rightK (toTrueK Ra) (toTrueK Rb) side sa sb op hne hI hop (kok_true op) hs
+
 theorem part_enum {content : Bytes → Bytes} {a b : Impl} (Ra : Refines content a)
     (Rb : Refines content b) (side : Bytes → Bool) (sa : a.σ) (sb : b.σ) (after : Bytes) (limit : Nat)
     (hI : PartInv Ra Rb side (sa, sb)) :
     (enum2 a b sa sb after limit).2.2 = out (union (Ra.abs sa) (Rb.abs sb)) (.enum after limit) ∧
     union (Ra.abs (enum2 a b sa sb after limit).1) (Rb.abs (enum2 a b sa sb after limit).2.1) =
       union (Ra.abs sa) (Rb.abs sb) ∧
-    PartInv Ra Rb side ((enum2 a b sa sb after limit).1, (enum2 a b sa sb after limit).2.1) := by
-  obtain ⟨hRa, hRb, hA, hB⟩ := hI
-  obtain ⟨ho, haa, hia, hab, hib⟩ := enum2_ok Ra Rb sa sb hRa hRb after limit
-  refine ⟨ho, by rw [haa, hab], hia, hib, ?_, ?_⟩
-  · intro k hh; rw [haa] at hh; exact hA k hh
-  · intro k hh; rw [hab] at hh; exact hB k hh
+    PartInv Ra Rb side ((enum2 a b sa sb after limit).1, (enum2 a b sa sb after limit).2.1) :=
+  part_enumK (toTrueK Ra) (toTrueK Rb) side sa sb after limit hI
 
 /-! ### 2. shard -/
+
+/-- one step of shard over `K`-refining sub-stores (the shared proof of `shard2Refines` and
+`shard2RefinesK`) -/
+theorem shard2_stepK {content : Bytes → Bytes} {K : Bytes → Prop} (route : Bytes → Bool) {a b : Impl}
+    (Ra : RefinesK content K a) (Rb : RefinesK content K b) (s : a.σ × b.σ) (op : Op)
+    (hI : PartInvK Ra Rb route s) (hop : op.WK content) (hK : op.KOK K) :
+    ((shard2Impl route a b).step s op).2 = out (union (Ra.abs s.1) (Rb.abs s.2)) op ∧
+    union (Ra.abs ((shard2Impl route a b).step s op).1.1) (Rb.abs ((shard2Impl route a b).step s op).1.2) =
+      next (union (Ra.abs s.1) (Rb.abs s.2)) op ∧
+    PartInvK Ra Rb route ((shard2Impl route a b).step s op).1 := by
+  obtain ⟨sa, sb⟩ := s
+  cases op with
+  | enum after limit => exact part_enumK Ra Rb route sa sb after limit hI
+  | recv k v =>
+    simp only [shard2Impl]
+    by_cases hr : route k = true
+    · simp only [hr, if_true]; exact part_rightK Ra Rb route sa sb _ rfl hI hop hK hr
+    · have hr' : route k = false := by cases h : route k <;> simp_all
+      simp only [hr', Bool.false_eq_true, if_false]; exact part_leftK Ra Rb route sa sb _ rfl hI hop hK hr'
+  | fetch k =>
+    simp only [shard2Impl]
+    by_cases hr : route k = true
+    · simp only [hr, if_true]; exact part_rightK Ra Rb route sa sb _ rfl hI hop hK hr
+    · have hr' : route k = false := by cases h : route k <;> simp_all
+      simp only [hr', Bool.false_eq_true, if_false]; exact part_leftK Ra Rb route sa sb _ rfl hI hop hK hr'
+  | stat k =>
+    simp only [shard2Impl]
+    by_cases hr : route k = true
+    · simp only [hr, if_true]; exact part_rightK Ra Rb route sa sb _ rfl hI hop hK hr
+    · have hr' : route k = false := by cases h : route k <;> simp_all
+      simp only [hr', Bool.false_eq_true, if_false]; exact part_leftK Ra Rb route sa sb _ rfl hI hop hK hr'
+  | rm k =>
+    simp only [shard2Impl]
+    by_cases hr : route k = true
+    · simp only [hr, if_true]; exact part_rightK Ra Rb route sa sb _ rfl hI hop hK hr
+    · have hr' : route k = false := by cases h : route k <;> simp_all
+      simp only [hr', Bool.false_eq_true, if_false]; exact part_leftK Ra Rb route sa sb _ rfl hI hop hK hr'
 
 def shard2Refines {content : Bytes → Bytes} (route : Bytes → Bool) {a b : Impl}
     (Ra : Refines content a) (Rb : Refines content b) : Refines content (shard2Impl route a b) where
@@ -360,34 +474,7 @@ def shard2Refines {content : Bytes → Bytes} (route : Bytes → Bool) {a b : Im
     by intro k h; simp [shard2Impl, Rb.init_abs, has, SMap.get] at h⟩
   init_abs := by simp [shard2Impl, Ra.init_abs, Rb.init_abs, union]
   good := fun s h => good_union (Ra.good _ h.1) (Rb.good _ h.2.1)
-  step_ok := by
-    rintro ⟨sa, sb⟩ op hI hop
-    cases op with
-    | enum after limit => exact part_enum Ra Rb route sa sb after limit hI
-    | recv k v =>
-      simp only [shard2Impl]
-      by_cases hr : route k = true
-      · simp only [hr, if_true]; exact part_right Ra Rb route sa sb _ rfl hI hop hr
-      · have hr' : route k = false := by cases h : route k <;> simp_all
-        simp only [hr', Bool.false_eq_true, if_false]; exact part_left Ra Rb route sa sb _ rfl hI hop hr'
-    | fetch k =>
-      simp only [shard2Impl]
-      by_cases hr : route k = true
-      · simp only [hr, if_true]; exact part_right Ra Rb route sa sb _ rfl hI hop hr
-      · have hr' : route k = false := by cases h : route k <;> simp_all
-        simp only [hr', Bool.false_eq_true, if_false]; exact part_left Ra Rb route sa sb _ rfl hI hop hr'
-    | stat k =>
-      simp only [shard2Impl]
-      by_cases hr : route k = true
-      · simp only [hr, if_true]; exact part_right Ra Rb route sa sb _ rfl hI hop hr
-      · have hr' : route k = false := by cases h : route k <;> simp_all
-        simp only [hr', Bool.false_eq_true, if_false]; exact part_left Ra Rb route sa sb _ rfl hI hop hr'
-    | rm k =>
-      simp only [shard2Impl]
-      by_cases hr : route k = true
-      · simp only [hr, if_true]; exact part_right Ra Rb route sa sb _ rfl hI hop hr
-      · have hr' : route k = false := by cases h : route k <;> simp_all
-        simp only [hr', Bool.false_eq_true, if_false]; exact part_left Ra Rb route sa sb _ rfl hI hop hr'
+  step_ok := fun s op hI hop => shard2_stepK route (toTrueK Ra) (toTrueK Rb) s op hI hop (kok_true op)
 
 /-! ### replica-style reads and removes over two refining stores (no relation between them needed) -/
 
@@ -414,9 +501,9 @@ theorem replica_fetch_eq (a b : Impl) (sa : a.σ) (sb : b.σ) (k : Bytes) :
 
 /-- fetch, stat, remove and enumerate of `replica[a, b]` answer as the left-biased union of the two
 contents does, and act on each side as the same operation -/
-theorem replica_nonrecv_ok {content : Bytes → Bytes} {a b : Impl} (Ra : Refines content a)
-    (Rb : Refines content b) (sa : a.σ) (sb : b.σ) (op : Op) (hnr : opIsRecv op = false)
-    (ha : Ra.Inv sa) (hb : Rb.Inv sb) :
+theorem replica_nonrecv_okK {content : Bytes → Bytes} {K : Bytes → Prop} {a b : Impl}
+    (Ra : RefinesK content K a) (Rb : RefinesK content K b) (sa : a.σ) (sb : b.σ) (op : Op)
+    (hnr : opIsRecv op = false) (ha : Ra.Inv sa) (hb : Rb.Inv sb) :
     ((replica2Impl a b).step (sa, sb) op).2 = out (union (Ra.abs sa) (Rb.abs sb)) op ∧
     Ra.abs ((replica2Impl a b).step (sa, sb) op).1.1 = next (Ra.abs sa) op ∧
     Rb.abs ((replica2Impl a b).step (sa, sb) op).1.2 = next (Rb.abs sb) op ∧
@@ -425,11 +512,11 @@ theorem replica_nonrecv_ok {content : Bytes → Bytes} {a b : Impl} (Ra : Refine
   cases op with
   | recv _ _ => cases hnr
   | enum after limit =>
-    obtain ⟨ho, haa, hia, hab, hib⟩ := enum2_ok Ra Rb sa sb ha hb after limit
+    obtain ⟨ho, haa, hia, hab, hib⟩ := enum2_okK Ra Rb sa sb ha hb after limit
     exact ⟨ho, haa, hab, hia, hib⟩
   | rm k =>
-    obtain ⟨hoa, haa, hia⟩ := Ra.step_ok sa (.rm k) ha trivial
-    obtain ⟨hob, hab, hib⟩ := Rb.step_ok sb (.rm k) hb trivial
+    obtain ⟨hoa, haa, hia⟩ := Ra.step_ok sa (.rm k) ha trivial trivial
+    obtain ⟨hob, hab, hib⟩ := Rb.step_ok sb (.rm k) hb trivial trivial
     simp only [replica2Impl]
     generalize a.step sa (.rm k) = pa at hoa haa hia
     generalize b.step sb (.rm k) = pb at hob hab hib
@@ -439,8 +526,8 @@ theorem replica_nonrecv_ok {content : Bytes → Bytes} {a b : Impl} (Ra : Refine
     subst hoa hob
     exact ⟨rfl, haa, hab, hia, hib⟩
   | fetch k =>
-    obtain ⟨hoa, haa, hia⟩ := Ra.step_ok sa (.fetch k) ha trivial
-    obtain ⟨hob, hab, hib⟩ := Rb.step_ok sb (.fetch k) hb trivial
+    obtain ⟨hoa, haa, hia⟩ := Ra.step_ok sa (.fetch k) ha trivial trivial
+    obtain ⟨hob, hab, hib⟩ := Rb.step_ok sb (.fetch k) hb trivial trivial
     rw [replica_fetch_eq]
     generalize a.step sa (.fetch k) = pa at hoa haa hia
     generalize b.step sb (.fetch k) = pb at hob hab hib
@@ -456,8 +543,8 @@ theorem replica_nonrecv_ok {content : Bytes → Bytes} {a b : Impl} (Ra : Refine
       rw [hg] at hoa; simp only at hoa; subst hoa hob
       exact ⟨rfl, haa, hab, hia, hib⟩
   | stat k =>
-    obtain ⟨hoa, haa, hia⟩ := Ra.step_ok sa (.stat k) ha trivial
-    obtain ⟨hob, hab, hib⟩ := Rb.step_ok sb (.stat k) hb trivial
+    obtain ⟨hoa, haa, hia⟩ := Ra.step_ok sa (.stat k) ha trivial trivial
+    obtain ⟨hob, hab, hib⟩ := Rb.step_ok sb (.stat k) hb trivial trivial
     simp only [replica2Impl]
     generalize a.step sa (.stat k) = pa at hoa haa hia
     generalize b.step sb (.stat k) = pb at hob hab hib
@@ -485,7 +572,62 @@ theorem replica_nonrecv_ok {content : Bytes → Bytes} {a b : Impl} (Ra : Refine
         rw [hgb] at hob; simp only at hob; subst hob
         exact ⟨rfl, haa, hab, hia, hib⟩
 
+/-- fetch, stat, remove and enumerate of `replica[a, b]` answer as the left-biased union of the two
+contents does, and act on each side as the same operation -/
+theorem replica_nonrecv_ok {content : Bytes → Bytes} {a b : Impl} (Ra : Refines content a)
+    (Rb : Refines content b) (sa : a.σ) (sb : b.σ) (op : Op) (hnr : opIsRecv op = false)
+    (ha : Ra.Inv sa) (hb : Rb.Inv sb) :
+    ((replica2Impl a b).step (sa, sb) op).2 = out (union (Ra.abs sa) (Rb.abs sb)) op ∧
+    Ra.abs ((replica2Impl a b).step (sa, sb) op).1.1 = next (Ra.abs sa) op ∧
+    Rb.abs ((replica2Impl a b).step (sa, sb) op).1.2 = next (Rb.abs sb) op ∧
+    Ra.Inv ((replica2Impl a b).step (sa, sb) op).1.1 ∧
+    Rb.Inv ((replica2Impl a b).step (sa, sb) op).1.2 :=
+  replica_nonrecv_okK (toTrueK Ra) (toTrueK Rb) sa sb op hnr ha hb
+
 /-! ### 3. replica -/
+
+/-- one step of replica over `K`-refining sub-stores holding the same contents (the shared proof of
+`replica2Refines` and `replica2RefinesK`) -/
+theorem replica2_stepK {content : Bytes → Bytes} {K : Bytes → Prop} {a b : Impl}
+    (Ra : RefinesK content K a) (Rb : RefinesK content K b) (s : a.σ × b.σ) (op : Op)
+    (hI : Ra.Inv s.1 ∧ Rb.Inv s.2 ∧ Ra.abs s.1 = Rb.abs s.2) (hop : op.WK content) (hK : op.KOK K) :
+    ((replica2Impl a b).step s op).2 = out (Ra.abs s.1) op ∧
+    Ra.abs ((replica2Impl a b).step s op).1.1 = next (Ra.abs s.1) op ∧
+    Ra.Inv ((replica2Impl a b).step s op).1.1 ∧
+    Rb.Inv ((replica2Impl a b).step s op).1.2 ∧
+    Ra.abs ((replica2Impl a b).step s op).1.1 = Rb.abs ((replica2Impl a b).step s op).1.2 := by
+  obtain ⟨sa, sb⟩ := s
+  obtain ⟨hRa, hRb, hE⟩ := hI
+  have key : opIsRecv op = false →
+      ((replica2Impl a b).step (sa, sb) op).2 = out (Ra.abs sa) op ∧
+      Ra.abs ((replica2Impl a b).step (sa, sb) op).1.1 = next (Ra.abs sa) op ∧
+      Ra.Inv ((replica2Impl a b).step (sa, sb) op).1.1 ∧
+      Rb.Inv ((replica2Impl a b).step (sa, sb) op).1.2 ∧
+      Ra.abs ((replica2Impl a b).step (sa, sb) op).1.1 =
+        Rb.abs ((replica2Impl a b).step (sa, sb) op).1.2 := by
+    intro hnr
+    obtain ⟨ho, haa, hab, hia, hib⟩ := replica_nonrecv_okK Ra Rb sa sb op hnr hRa hRb
+    simp only at hE
+    refine ⟨?_, haa, hia, hib, ?_⟩
+    · rw [ho, ← hE, union_self (Ra.good sa hRa).1]
+    · rw [haa, hab, hE]
+  cases op with
+  | fetch k => exact key rfl
+  | stat k => exact key rfl
+  | rm k => exact key rfl
+  | enum after limit => exact key rfl
+  | recv k v =>
+    obtain ⟨hoa, haa, hia⟩ := Ra.step_ok sa (.recv k v) hRa hop hK
+    obtain ⟨hob, hab, hib⟩ := Rb.step_ok sb (.recv k v) hRb hop hK
+    simp only [replica2Impl]
+    generalize a.step sa (.recv k v) = pa at hoa haa hia
+    generalize b.step sb (.recv k v) = pb at hob hab hib
+    obtain ⟨sa1, oa⟩ := pa
+    obtain ⟨sb1, ob⟩ := pb
+    simp only [out] at hoa hob
+    subst hoa hob
+    simp only at hE haa hab
+    exact ⟨by simp [out], haa, hia, hib, by rw [haa, hab, hE]⟩
 
 def replica2Refines {content : Bytes → Bytes} {a b : Impl} (Ra : Refines content a)
     (Rb : Refines content b) : Refines content (replica2Impl a b) where
@@ -494,51 +636,20 @@ def replica2Refines {content : Bytes → Bytes} {a b : Impl} (Ra : Refines conte
   init_inv := ⟨Ra.init_inv, Rb.init_inv, by simp [replica2Impl, Ra.init_abs, Rb.init_abs]⟩
   init_abs := Ra.init_abs
   good := fun s h => Ra.good _ h.1
-  step_ok := by
-    rintro ⟨sa, sb⟩ op ⟨hRa, hRb, hE⟩ hop
-    have key : opIsRecv op = false →
-        ((replica2Impl a b).step (sa, sb) op).2 = out (Ra.abs sa) op ∧
-        Ra.abs ((replica2Impl a b).step (sa, sb) op).1.1 = next (Ra.abs sa) op ∧
-        Ra.Inv ((replica2Impl a b).step (sa, sb) op).1.1 ∧
-        Rb.Inv ((replica2Impl a b).step (sa, sb) op).1.2 ∧
-        Ra.abs ((replica2Impl a b).step (sa, sb) op).1.1 =
-          Rb.abs ((replica2Impl a b).step (sa, sb) op).1.2 := by
-      intro hnr
-      obtain ⟨ho, haa, hab, hia, hib⟩ := replica_nonrecv_ok Ra Rb sa sb op hnr hRa hRb
-      simp only at hE
-      refine ⟨?_, haa, hia, hib, ?_⟩
-      · rw [ho, ← hE, union_self (Ra.good sa hRa).1]
-      · rw [haa, hab, hE]
-    cases op with
-    | fetch k => exact key rfl
-    | stat k => exact key rfl
-    | rm k => exact key rfl
-    | enum after limit => exact key rfl
-    | recv k v =>
-      obtain ⟨hoa, haa, hia⟩ := Ra.step_ok sa (.recv k v) hRa hop
-      obtain ⟨hob, hab, hib⟩ := Rb.step_ok sb (.recv k v) hRb hop
-      simp only [replica2Impl]
-      generalize a.step sa (.recv k v) = pa at hoa haa hia
-      generalize b.step sb (.recv k v) = pb at hob hab hib
-      obtain ⟨sa1, oa⟩ := pa
-      obtain ⟨sb1, ob⟩ := pb
-      simp only [out] at hoa hob
-      subst hoa hob
-      simp only at hE haa hab
-      exact ⟨by simp [out], haa, hia, hib, by rw [haa, hab, hE]⟩
+  step_ok := fun s op hI hop => replica2_stepK (toTrueK Ra) (toTrueK Rb) s op hI hop (kok_true op)
 
 /-! ### 4. cond -/
 
 /-- replica-style fetch, stat, remove and enumerate over two stores holding disjoint parts -/
-theorem part_both {content : Bytes → Bytes} {a b : Impl} (Ra : Refines content a)
-    (Rb : Refines content b) (side : Bytes → Bool) (sa : a.σ) (sb : b.σ) (op : Op)
-    (hnr : opIsRecv op = false) (hI : PartInv Ra Rb side (sa, sb)) :
+theorem part_bothK {content : Bytes → Bytes} {K : Bytes → Prop} {a b : Impl}
+    (Ra : RefinesK content K a) (Rb : RefinesK content K b) (side : Bytes → Bool) (sa : a.σ) (sb : b.σ)
+    (op : Op) (hnr : opIsRecv op = false) (hI : PartInvK Ra Rb side (sa, sb)) :
     ((replica2Impl a b).step (sa, sb) op).2 = out (union (Ra.abs sa) (Rb.abs sb)) op ∧
     union (Ra.abs ((replica2Impl a b).step (sa, sb) op).1.1)
         (Rb.abs ((replica2Impl a b).step (sa, sb) op).1.2) = next (union (Ra.abs sa) (Rb.abs sb)) op ∧
-    PartInv Ra Rb side ((replica2Impl a b).step (sa, sb) op).1 := by
+    PartInvK Ra Rb side ((replica2Impl a b).step (sa, sb) op).1 := by
   obtain ⟨hRa, hRb, hA, hB⟩ := hI
-  obtain ⟨ho, haa, hab, hia, hib⟩ := replica_nonrecv_ok Ra Rb sa sb op hnr hRa hRb
+  obtain ⟨ho, haa, hab, hia, hib⟩ := replica_nonrecv_okK Ra Rb sa sb op hnr hRa hRb
   refine ⟨ho, ?_, hia, hib, ?_, ?_⟩
   · rw [haa, hab]; exact next_union_both (Ra.good sa hRa).1 (Rb.good sb hRb).1 op hnr
   · intro k hh
@@ -552,10 +663,33 @@ theorem part_both {content : Bytes → Bytes} {a b : Impl} (Ra : Refines content
     · exact hB k h
     · rw [hnr] at h; cases h
 
+/-- replica-style fetch, stat, remove and enumerate over two stores holding disjoint parts -/
+theorem part_both {content : Bytes → Bytes} {a b : Impl} (Ra : Refines content a)
+    (Rb : Refines content b) (side : Bytes → Bool) (sa : a.σ) (sb : b.σ) (op : Op)
+    (hnr : opIsRecv op = false) (hI : PartInv Ra Rb side (sa, sb)) :
+    ((replica2Impl a b).step (sa, sb) op).2 = out (union (Ra.abs sa) (Rb.abs sb)) op ∧
+    union (Ra.abs ((replica2Impl a b).step (sa, sb) op).1.1)
+        (Rb.abs ((replica2Impl a b).step (sa, sb) op).1.2) = next (union (Ra.abs sa) (Rb.abs sb)) op ∧
+    PartInv Ra Rb side ((replica2Impl a b).step (sa, sb) op).1 :=
+  part_bothK (toTrueK Ra) (toTrueK Rb) side sa sb op hnr hI
+
+/-- the invariant of cond: `t` holds only blobs whose content is schema, `e` only the others -/
+def CondInvK {content : Bytes → Bytes} {K : Bytes → Prop} (isSchema : Bytes → Bool) {t e : Impl}
+    (Rt : RefinesK content K t) (Re : RefinesK content K e) (s : t.σ × e.σ) : Prop :=
+  PartInvK Rt Re (fun k => !isSchema (content k)) s
+
 /-- the invariant of cond: `t` holds only blobs whose content is schema, `e` only the others -/
 def CondInv {content : Bytes → Bytes} (isSchema : Bytes → Bool) {t e : Impl} (Rt : Refines content t)
     (Re : Refines content e) (s : t.σ × e.σ) : Prop :=
   PartInv Rt Re (fun k => !isSchema (content k)) s
+
+theorem condInvK_iff {content : Bytes → Bytes} {K : Bytes → Prop} (isSchema : Bytes → Bool) {t e : Impl}
+    (Rt : RefinesK content K t) (Re : RefinesK content K e) (s : t.σ × e.σ) :
+    CondInvK isSchema Rt Re s ↔
+      (Rt.Inv s.1 ∧ Re.Inv s.2 ∧
+       (∀ k, has (Rt.abs s.1) k = true → isSchema (content k) = true) ∧
+       (∀ k, has (Re.abs s.2) k = true → isSchema (content k) = false)) := by
+  simp [CondInvK, PartInvK]
 
 theorem condInv_iff {content : Bytes → Bytes} (isSchema : Bytes → Bool) {t e : Impl}
     (Rt : Refines content t) (Re : Refines content e) (s : t.σ × e.σ) :
@@ -564,6 +698,31 @@ theorem condInv_iff {content : Bytes → Bytes} (isSchema : Bytes → Bool) {t e
        (∀ k, has (Rt.abs s.1) k = true → isSchema (content k) = true) ∧
        (∀ k, has (Re.abs s.2) k = true → isSchema (content k) = false)) := by
   simp [CondInv, PartInv]
+
+/-- one step of cond over `K`-refining sub-stores (the shared proof of `cond2Refines` and
+`cond2RefinesK`) -/
+theorem cond2_stepK {content : Bytes → Bytes} {K : Bytes → Prop} (isSchema : Bytes → Bool) {t e : Impl}
+    (Rt : RefinesK content K t) (Re : RefinesK content K e) (s : t.σ × e.σ) (op : Op)
+    (hI : CondInvK isSchema Rt Re s) (hop : op.WK content) (hK : op.KOK K) :
+    ((cond2Impl isSchema t e).step s op).2 = out (union (Rt.abs s.1) (Re.abs s.2)) op ∧
+    union (Rt.abs ((cond2Impl isSchema t e).step s op).1.1) (Re.abs ((cond2Impl isSchema t e).step s op).1.2) =
+      next (union (Rt.abs s.1) (Re.abs s.2)) op ∧
+    CondInvK isSchema Rt Re ((cond2Impl isSchema t e).step s op).1 := by
+  obtain ⟨st, se⟩ := s
+  cases op with
+  | fetch k => exact part_bothK Rt Re _ st se (.fetch k) rfl hI
+  | stat k => exact part_bothK Rt Re _ st se (.stat k) rfl hI
+  | rm k => exact part_bothK Rt Re _ st se (.rm k) rfl hI
+  | enum after limit => exact part_bothK Rt Re _ st se (.enum after limit) rfl hI
+  | recv k v =>
+    have hv : v = content k := hop.1
+    simp only [cond2Impl]
+    by_cases hs : isSchema v = true
+    · simp only [hs, if_true]
+      exact part_leftK Rt Re _ st se _ rfl hI hop hK (by simp [opKey, ← hv, hs])
+    · have hs' : isSchema v = false := by cases h : isSchema v <;> simp_all
+      simp only [hs', Bool.false_eq_true, if_false]
+      exact part_rightK Rt Re _ st se _ rfl hI hop hK (by simp [opKey, ← hv, hs'])
 
 def cond2Refines {content : Bytes → Bytes} (isSchema : Bytes → Bool) {t e : Impl}
     (Rt : Refines content t) (Re : Refines content e) : Refines content (cond2Impl isSchema t e) where
@@ -574,21 +733,6 @@ def cond2Refines {content : Bytes → Bytes} (isSchema : Bytes → Bool) {t e : 
     by intro k h; simp [cond2Impl, Re.init_abs, has, SMap.get] at h⟩
   init_abs := by simp [cond2Impl, Rt.init_abs, Re.init_abs, union]
   good := fun s h => good_union (Rt.good _ h.1) (Re.good _ h.2.1)
-  step_ok := by
-    rintro ⟨st, se⟩ op hI hop
-    cases op with
-    | fetch k => exact part_both Rt Re _ st se (.fetch k) rfl hI
-    | stat k => exact part_both Rt Re _ st se (.stat k) rfl hI
-    | rm k => exact part_both Rt Re _ st se (.rm k) rfl hI
-    | enum after limit => exact part_both Rt Re _ st se (.enum after limit) rfl hI
-    | recv k v =>
-      have hv : v = content k := hop.1
-      simp only [cond2Impl]
-      by_cases hs : isSchema v = true
-      · simp only [hs, if_true]
-        exact part_left Rt Re _ st se _ rfl hI hop (by simp [opKey, ← hv, hs])
-      · have hs' : isSchema v = false := by cases h : isSchema v <;> simp_all
-        simp only [hs', Bool.false_eq_true, if_false]
-        exact part_right Rt Re _ st se _ rfl hI hop (by simp [opKey, ← hv, hs'])
+  step_ok := fun s op hI hop => cond2_stepK isSchema (toTrueK Rt) (toTrueK Re) s op hI hop (kok_true op)
 
 end Pk.Stores
